@@ -262,7 +262,8 @@ def impl_line(line: str) -> str:
     if op == "svc":
         def f():
             t = fb.ServiceData(int(args[0]))
-            t.data = unhx(args[1])
+            if len(args) > 1:       # `svc <uuid>` alone: a fresh object, `.data` never assigned
+                t.data = unhx(args[1])
             if t.buffer != t.uuid + t.data or repr(t) != fb.address_repr(t.buffer, False):
                 raise Infra("ServiceData accessors inconsistent")
             return hx(t.buffer) + " " + str(len(t))
